@@ -61,6 +61,23 @@ class C10(F.PropCheck):
         evs += self.ticks(rng, need, style, sensor, maxn=6000)
         return evs, ['task-rs', 'full%d' % full, 'margin%d' % margin, 'sensor%d' % sensor, style]
 
+    def fam_task_asym(self, rng, tier):
+        """opening and closing times differ by a factor of 12: tasks to both end stops (and inside) must use the travel time and the
+        end-stop margin of the direction actually travelled"""
+        a, b = rng.choice([(24000, 2000), (2000, 24000), (60000, 5000), (5000, 60000), (12000, 1000), (1000, 12000)])
+        margin = rng.choice([-1, -1, 0, 5, 50, 100])
+        target = rng.choice([0, 100, 0, 100, rng.randrange(0, 101)])
+        start = min(100, max(0, target + rng.choice([-1, 1]) * rng.randrange(3, 40)))
+        if start == target: start = 50
+        sensor = rng.choice([0, 0, 2]); style = rng.choice(['exact10', 'jitter'])
+        evs = [self.cfg(margin=margin, pos0=100 + 100 * start, t1=a, t2=b, mu=a, md=b, ms=rng.choice([0, 50]))]
+        evs += self.ticks(rng, 30000, 'exact10', sensor)
+        evs.append(('TASK', [target, -1], b''))
+        full = a if target < start else b
+        need = abs(start - target) * full * 10 + max(a, b) * 1000 * (110 if margin < 0 else margin) // 100 + 1500000
+        evs += self.ticks(rng, need, style, sensor, maxn=6000)
+        return evs, ['task-rs', 'asymmetric-times', 'margin%d' % margin, 'to-end-stop' if target in (0, 100) else 'inside']
+
     def fam_manual(self, rng, tier):
         full = rng.choice([500, 2000, 17300, rng.randrange(500, 5000)])
         margin = rng.choice([-1, 0, 5, 50, 100])
@@ -192,7 +209,7 @@ class C10(F.PropCheck):
         C09MOD.run_batches(self, ctx, makers, 'batched_thorough')
 
     def gen_cases(self, rng, n, tier, prefix=''):
-        fams = [(self.fam_task_rs, 30), (self.fam_manual, 12), (self.fam_ten_minutes, 3), (self.fam_autocal, 12), (self.fam_autocal_stuck, 2), (self.fam_interrupt, 12),
+        fams = [(self.fam_task_rs, 30), (self.fam_task_asym, 6), (self.fam_manual, 12), (self.fam_ten_minutes, 3), (self.fam_autocal, 12), (self.fam_autocal_stuck, 2), (self.fam_interrupt, 12),
                 (self.fam_fb, 10), (self.fam_random, 21)]
         tot = sum(w for _, w in fams); cases = []
         for i in range(n):
